@@ -95,6 +95,12 @@ func checkC05(cfg *core.Config) int {
 }
 
 func kindOfName(n string) string {
+	switch {
+	case strings.HasSuffix(n, "ArrayToPQ"):
+		return "<ID>ArrayToPQ (only called indirectly)"
+	case strings.HasPrefix(n, "Set") && !strings.Contains(n, "."), strings.HasPrefix(n, "Touch"), strings.HasPrefix(n, "Mark"):
+		return "custom query (text checked by C16; not executed: destructive, on a unique column or with an enum literal)"
+	}
 	for _, pre := range []string{"Select", "Delete", "InsertMany", "New"} {
 		if strings.HasPrefix(n, pre) {
 			if i := strings.Index(n, "By"); i > 0 {
